@@ -53,17 +53,20 @@ def chunk_specs():
         'E': ({'gen': 'lcgdeck', 'args': list(scenes.W119[1])}, {'LAYERING_PRMS': {'gmm_kwargs': {'scores': 'AIC', 'delta_mul_gain': 1.0}}, 'MIN_SEP_VALS': [2000, 2000]}),
         # same data as A, parameters differing only in leaves a memo keyed by data-derived values would confuse
         'G': ({'gen': 'lcgbimodal', 'args': list(scenes.WAIC[0])}, {'MIN_SEP_VALS': [100, 1000], 'MAX_HOLES_OKTA8': 40, 'LAYERING_PRMS': {'gmm_kwargs': {'scores': 'AIC'}}}),
+        # H / I: the same three-mode deck; with the default separations (250) everything re-merges, with 100 three layers survive
+        'H': (D({'h': 1000., 'n': 60, 'pattern': 'modes:125:125'}, T=60), None),
+        'I': (D({'h': 1000., 'n': 60, 'pattern': 'modes:125:125'}, T=60), {'MIN_SEP_VALS': [100, 1000]}),
         'F': (D({'h': 1000., 'n': 40, 'pattern': 'rampup'}, {'h': 1210., 'n': 40, 'pattern': 'rampup'}, {'h': 9000., 'n': 12, 'where': 'first'}),
               {'MSA': 3000, 'MSA_HIT_BUFFER': 0, 'SLICING_PRMS': {'distance_threshold': 0.1}}),
     }
 
 
-PAIRS = [('A', 'B'), ('A', 'G'), ('C', 'D'), ('E', 'F'), ('B', 'D')]
+PAIRS = [('A', 'B'), ('A', 'G'), ('H', 'I'), ('C', 'D'), ('E', 'F'), ('B', 'D')]
 TRIPLES = [('A', 'B', 'C')]
 
 
 def bound(tier):
-    return ('stage: 252 interleavings x 2 pairs + 3-chunk graph; pre-emption bound 1 on pair (A,B): A stopped at EVERY source line/call/return inside ampycloud, B at every 2nd call/return; real threads: bound 0 + ~26 bound-1 schedules for 2 pairs'
+    return ('stage: 252 interleavings x 3 pairs + 3-chunk graph; pre-emption bound 1 on pair (A,B): A stopped at EVERY source line/call/return inside ampycloud, B at every 2nd call/return; real threads: bound 0 + ~26 bound-1 schedules for 2 pairs'
             if tier == 'quick' else
             'stage: 252 interleavings x %d pairs + 3-chunk graph; pre-emption bound 1 at every line/call/return point, %d pairs x 2 orders; real threads: bound 0, bound 1 spread, bound 2 at call depth <= 2'
             % (len(PAIRS), len(PAIRS)))
@@ -71,7 +74,7 @@ def bound(tier):
 
 def cases(tier):
     out = []
-    for p in (PAIRS[:2] if tier == 'quick' else PAIRS):
+    for p in (PAIRS[:3] if tier == 'quick' else PAIRS):
         for part in range(4):
             out.append({'kind': 'stage2', 'pair': list(p), 'part': part, 'nparts': 4})
     for t in TRIPLES:
